@@ -58,6 +58,14 @@ type Finding struct {
 	Viol []Violation `json:"violations"`
 	Ref  CaseRef     `json:"ref"`
 	Race bool        `json:"race,omitempty"`
+	// Prelude: cases that ran earlier in the same process and are needed for the
+	// violation to manifest (state that outlives a Server instance: package-level
+	// variables, pools, free lists). Replay runs them first, in order.
+	Prelude []*Case `json:"prelude,omitempty"`
+	// Seed and Recent (worker output only): how to regenerate the cases that
+	// preceded this one in the worker process, oldest first.
+	Seed   uint64    `json:"seed,omitempty"`
+	Recent []CaseRef `json:"recent,omitempty"`
 }
 
 // WorkerReport is the last line a worker writes.
@@ -254,17 +262,24 @@ func WorkerMain(t *testing.T, p *Prop, seed uint64, tier string, shard, shards i
 	digests := map[uint64]struct{}{}
 	start := time.Now()
 	findings := 0
+	var recent []CaseRef // the cases that ran before the current one in this process
 	emit := func(c *Case, ref CaseRef, viol []Violation) {
 		findings++
 		if findings > 40 {
 			return
 		}
-		b, _ := json.Marshal(&Finding{Case: c, Viol: viol, Ref: ref, Race: RaceEnabled})
+		b, _ := json.Marshal(&Finding{Case: c, Viol: viol, Ref: ref, Race: RaceEnabled, Seed: seed, Recent: append([]CaseRef(nil), recent...)})
 		w.Write(b)        //nolint:errcheck
 		w.WriteByte('\n') //nolint:errcheck
 		w.Flush()
 	}
 	handle := func(c *Case, ref CaseRef) {
+		defer func() {
+			recent = append(recent, ref)
+			if len(recent) > 64 {
+				recent = recent[1:]
+			}
+		}()
 		viol, nontrivial := checkOne(p, x, c)
 		if nontrivial {
 			x.Stats.Nontrivial++
@@ -400,13 +415,19 @@ func ReplayMain(t *testing.T, path string) int {
 	}()
 	var viol []Violation
 	x := NewExec()
-	runOnce := true
+	step := 0
 	runInBubbles(t, 1, func(x *Exec) bool {
-		if !runOnce {
+		if step > len(f.Prelude) {
 			return false
 		}
-		runOnce = false
-		viol, _ = checkOne(p, x, f.Case)
+		if step < len(f.Prelude) {
+			// earlier cases of the same process: run for their side effects on
+			// state that outlives the Server instance; their verdicts are not used
+			checkOne(p, x, f.Prelude[step].Clone())
+		} else {
+			viol, _ = checkOne(p, x, f.Case)
+		}
+		step++
 		return true
 	}, x)
 	res, _ := json.Marshal(map[string]any{"violations": viol})
